@@ -404,6 +404,10 @@ impl Templates {
             if slots.is_empty() {
                 return Some(Err(format!("the plain value {MARK} is not written as a literal: {sql}")));
             }
+            // positions that take the value twice must show it twice
+            if matches!(p, Pos::InjectTwice | Pos::UpdateValue) && slots.len() != 2 {
+                return Some(Err(format!("the plain value {MARK} is given twice but written {} time(s): {sql}", slots.len())));
+            }
             Some(Ok((toks, slots)))
         })
     }
